@@ -85,7 +85,12 @@ class Ctx:
             if not known or path in known or "::{closure" in path or "#" in path:
                 return False
             b = fb.body(path)
-            if b is None or b.kind not in ("Fn", "AssocFn") or b.d.get("instance_of") in known or (b.reachable() and b.is_pub()) or b.d.get("impl_trait"):
+            if b is None or b.kind not in ("Fn", "AssocFn") or b.d.get("instance_of") in known:
+                return False
+            if b.d.get("impl_trait"):
+                if not fb.fresh_trait(b.d["impl_trait"]):
+                    return False
+            elif b.reachable() and b.is_pub():
                 return False
             return depth < 4 and pp(path, depth)
 
